@@ -2,6 +2,7 @@ import HdVerif.Model.Offsets
 import HdVerif.Generated.T11d
 import HdVerif.Generated.T11f
 import HdVerif.Generated.T11
+import HdVerif.Model.FrameAccess
 /-! C05: encapsulated pixel data as BYTES — what `io.ImageFileReader` does on the file itself.
 
 `Model/Offsets.lean` speaks about a list of fragments; here the stream is the byte string that follows the header of
@@ -209,5 +210,29 @@ def lazyRawEnc (pd : Bytes) (eot : Option Bytes) (numberOfFrames : Nat) (index :
   let (table, first) ← openEncapsulated pd eot numberOfFrames
   let i ← lazyIndexGuard index numberOfFrames
   readFrameRawB (pd.drop first) table i.toNat
+
+/-! ### native pixel data in the file: header of the element, then the value -/
+
+/-- header of a native Pixel Data element (7FE0,0010) with value length `len`: tag + 4-byte length under implicit VR;
+    tag + VR (`vr` = the two VR characters, OB or OW) + 2 reserved bytes + 4-byte length under explicit VR -/
+def nativeHeader (implicit : Bool) (vr : Bytes) (len : Nat) : Bytes :=
+  [0xE0, 0x7F, 0x10, 0x00] ++ (if implicit then [] else vr.take 2 ++ [0, 0]) ++ leBytes 4 len
+
+/-- `ImageFileReader.read_frame_raw` on a NATIVE image, on the bytes of the file: the reader remembers where the element starts
+    (`_pixel_data_offset`), adds the regenerated header length (`nativeFirstFrameOffset`, T11f) and the offset-table entry, and
+    reads the regenerated number of bytes (T11, T11b, T11c - the same arithmetic as `FrameAccess.lazyRaw`) -/
+def lazyRawNativeFile (file : Bytes) (pixelDataOffset : Nat) (implicit : Bool) (rows cols samples bits n : Int) (pi : String)
+    (idx : Int) : Except ErrKind Bytes := do
+  let i ← lazyIndexGuard idx n
+  let ppf := rows * cols * samples
+  let bpf ← lazyBytesPerFrame ppf bits pi rows cols
+  let off ← if bits = 1 then lazyOffsetBit i ppf else lazyOffsetByte i bpf
+  let len ← lazyReadLength i off bits ppf bpf
+  let first ← nativeFirstFrameOffset implicit pixelDataOffset
+  let pos ← readSeekPosition off first
+  if pos < 0 ∨ len < 0 then .error .other
+  else
+    let raw := readAt file pos.toNat len.toNat
+    if raw.length = 0 then .error .other else .ok raw
 
 end HdVerif.EncapBytes
